@@ -17,6 +17,11 @@ func unwindStack(sp, fp, top uintptr, returnAddresses []uintptr) []uintptr {
 	return arm64.UnwindStack(sp, fp, top, returnAddresses)
 }
 
+// unwindStackUpTo is unwindStack which stops as soon as `returnAddresses` has limit entries (zero: no limit).
+func unwindStackUpTo(sp, fp, top uintptr, returnAddresses []uintptr, limit int) []uintptr {
+	return arm64.UnwindStackUpTo(sp, fp, top, returnAddresses, limit)
+}
+
 // goCallStackView is a function to get a view of the stack before a Go call, which
 // is the view of the stack allocated in CompileGoFunctionTrampoline.
 func goCallStackView(stackPointerBeforeGoCall *uint64) []uint64 {
